@@ -1016,13 +1016,13 @@ Proof.
   destruct oq; simpl; split; congruence.
 Qed.
 
-(* ================= the code as it is today violates exactly-once ================= *)
+(* ================= historical: the dispatch rule before 96f9f16 violated exactly-once ================= *)
 Definition witness : list event :=
   [ Submit SA 100 0 0 None; Deliver SB 0 10 None; Tick SB 100 []; Deliver SA 0 110 None;
     Submit SB 200 0 120 None; Deliver SA 1 130 None; Tick SA 400 []; Deliver SB 1 410 None ].
 Definition witness_cfg : Z * Z * Z * Z * Z := (100, 400, 3, 50, 2).
 
-Lemma defective_loses_message :
+Lemma pre_96f9f16_rule_loses_message :
   let s := run true (init_sys witness_cfg witness_cfg 0 0) witness in
   honest witness = true /\
   e_sub (s_b s) = [200] /\ e_del (s_a s) = [] /\ e_acked (s_b s) = [0%nat] /\
